@@ -7,6 +7,22 @@ import json, os, subprocess
 ROOT = os.path.dirname(os.path.dirname(os.path.abspath(__file__)))
 
 CHECKS = {
+    "C03": dict(cat="exploration", sec="5 C03",
+                tech="runtime monitor: canary scan of every output channel of full nodes for all encodings of the private scalars the harness reads from the key directory; namespace monitor (file-tree snapshots + inotify decoys) over hostile key names; sign/verify agreement",
+                text="Two full in-process nodes (did:web and did:nuts) with the fs key back end at debug/trace verbosity and body logging; log and audit taps installed before start. Workload of 113 distinct operations (subjects, keys, ldp/jwt issuance, presentations, "
+                     "revocation, sign_jwt/sign_jws with 16-136 caller-supplied header variants incl. public/private/own jwk, JWE, DPoP, s2s and OpenID4VP flows incl. session wallet keys, every KeyStore method, imported RSA/Ed25519/P-384 keys, DAG transactions). "
+                     "(1) every encoding (raw, base64/base64url, hex, decimal, PEM lines, DER) of every private scalar is searched in all response bodies/headers of both listeners, outbound requests, log and audit entries, every row of every SQL table, decoded token "
+                     "headers/claims, DID documents, file names and Go return values; the scanner self-tests on planted shapes. (2) ~180-550 hostile key names through the fs back end behind the validating wrapper, the KeyStore and HTTP kid parameters, between snapshots of "
+                     "everything outside the key directory with inotify on decoy key files. (3) every signature requested for kid K verifies with K's published key and with no other key of the node.",
+                note="The quantifier 'all call sites that can reach raw key bytes' is about program text: the check covers the channels its workload drives and lists the operations exercised. Patterns shorter than 16 bytes are skipped. Vault/Azure/external back ends not exercised."),
+    "C14": dict(cat="fault_enumeration", sec="5 C14",
+                tech="runtime monitor: SIGKILL crash-point enumeration in worker processes over real dag.State + notifiers with production-style subscribers; offline at-least-once / no-redelivery-after-completion oracle over merged ledgers",
+                text="Worker processes hold a real dag.State on bbolt (sync writes) with subscribers registered as network.Subscribe does (persistent vdr/vcr/nats/private/txlog with production filters, one non-persistent, sometimes an unfiltered one) and scripted receivers "
+                     "(succeed, fail n, incomplete n, fatal, slow, fail forever, receiver writes the payload / marks finished). Every scenario (5-30 public/private transactions, payload with Add / later / twice / never) runs at every crash point: inside the admission write, "
+                     "after commit before notify, inside/after the payload write, receiver returned before completion marking, failure before/after recording, mid back-off, after completion, and one double crash during the start-up replay. Later processes re-register, call Run() "
+                     "and drain. Offline oracle over the merged ledgers, final DAG, payload store, shelves and GetFailedEvents: every admitted selected event delivered or still visible; no delivery of non-admitted; no delivery after recorded completion (also after restart); "
+                     "no retry after fatal; persisted retry counters consistent; pending events replayed; nothing stalled; failed-for-good events visible.",
+                note="Ordering and counts only, never durations; adds are sequential in the worker (concurrency comes from the real retry goroutines); subscriber selecting both event types of one tx and second WritePayload are unspecified."),
     "C10": dict(cat="exploration", sec="5 C10",
                 tech="runtime monitor: permutation/replica differential over the real didstore (resolution digest equality across arrival orders and independent stores) + online deactivation/conflict invariants",
                 text="Seeded did:nuts event sets over 13 shapes (linear, 2-/3-way forks, resolved/partial/late forks, deactivation (+fork), root conflict, two DIDs, id clashes) x rich documents (3-4 controllers, keys, services), four signing-time modes, "
